@@ -46,7 +46,7 @@ def is_floaty(e):
 
 def in_class(prog, passes):
     """the class the property states (decided syntactically, conservatively)"""
-    for n in T.nodes([f["body"] for f in prog["fns"].values()] + [g["e"] for g in prog["globals"]]):
+    for n in T.nodes([f["body"] for f in prog["fns"].values()] + [g["e"] for g in prog["globals"] if g["e"].get("k") != "default"]):
         k = n.get("k")
         if k == "int" and abs(n["v"]) >= 2 ** 20:
             return False
